@@ -667,6 +667,58 @@ def check_dispatch(ctx):
     return bool(r_ok and not e_ok)
 
 
+def check_trig_model(ctx):
+    """the GENERATED get_trig_moment_num/_den run by the Coq kernel in the Gaussian model (e m = i^m, angle pi/2)
+    against the REAL get_trig_moment on the same laws placed at multiples of pi/2: exact rational comparison
+    num = den * value.  Ties sign, frequency, binomials, divisor and derivative order of the translation to the code."""
+    rng = ctx.rng
+    reqs = []
+    for _ in range(ctx.pick(14, 60)):
+        nv = rng.randint(1, 4)
+        vals = rng.sample(range(-3, 5), nv)
+        ws = [rng.randint(1, 5) for _ in vals]
+        law = [[str(Fraction(w, sum(ws))), v] for w, v in zip(ws, vals)]
+        a, b, c = rng.randint(0, 2), rng.randint(0, 3), rng.randint(0, 3)
+        if b + c == 0:
+            b = 1
+        reqs.append((law, [[k, v] for k, v in (("Id", a), ("Sin", b), ("Cos", c)) if v]))
+    res = lib.run_tasks([{"kind": "func_trig_model", "requests": reqs, "timeout": 200}], timeout=200)[0]
+    ctx.coverage["obligations"] += 1
+    if "values" not in res:
+        ctx.violation("trig-model:probe-failed", {"result": res}, f"running the real get_trig_moment on angle laws failed: {str(res)[:200]}",
+                      no_input=True)
+        return
+    terms, used = [], []
+    for (law, pw), v in zip(reqs, res["values"]):
+        if not isinstance(v, str):
+            ctx.violation(f"trig-model:real-code-failed:{law}:{pw}", {"law": law, "powers": pw, "result": v},
+                          f"get_trig_moment on the law {law} (atoms at multiples of pi/2), powers {dict(pw)}: {v}")
+            continue
+        L = "[" + "; ".join(f"(gq {lib.cq(Fraction(p))}, ({x})%Z)" for p, x in law) + "]"
+        fp = coq_fdict(pw)
+        terms.append(f"(let L : zlaw G := {L} in reqb (get_trig_moment_num G gi false (mom_of G L) (tf_of e4 L) (dtf_of e4 gi L) {fp}) "
+                     f"(rmul (get_trig_moment_den G gi false (mom_of G L) (tf_of e4 L) (dtf_of e4 gi L) {fp}) (gq {lib.cq(Fraction(v))})))")
+        used.append((law, pw, v))
+    body = ("From Coq Require Import List ZArith Bool String QArith Qcanon.\nFrom Polar Require Import Qcx CRing Stats Func FuncThm FuncModel.\n"
+            "From PolarGen Require Import FuncGen.\nImport ListNotations.\nLocal Open Scope string_scope.\n"
+            "Eval vm_compute in [" + ";\n ".join(terms) + "].\n")
+    ok, o = lib.coq_run(ctx, "c13_trigmodel", body, timeout=300)
+    bl = lib.parse_bool_list(o) if ok else None
+    if bl is None or len(bl) != len(used):
+        ctx.violation("trig-model:coq-case-file", {"log": o[-1500:]}, "the trig-model case file did not evaluate", no_input=True)
+        return
+    bad = [u for u, b in zip(used, bl) if not b]
+    for law, pw, v in bad[:3]:
+        ctx.violation(f"trig-model:differs:{law}:{pw}", {"law": law, "powers": pw, "real_value": v},
+                      f"translated get_trig_moment (kernel, angle pi/2) differs from the real one on law {law}, powers {dict(pw)} "
+                      f"(real value {v} * (pi/2)^a)", no_input=False)
+    if not bad:
+        ctx.coverage["discharged"] += 1
+    for law, pw, v in used:
+        ctx.count({"trig_model": [law, pw]}, nontrivial=True)
+    ctx.coverage["trig_model_requests"] = len(used)
+
+
 # =====================================================================================
 def run(ctx):
     mp = _mp()
@@ -707,6 +759,7 @@ def run(ctx):
     mixed_is_trig = None
     if proof_ok:
         mixed_is_trig = check_dispatch(ctx)
+        check_trig_model(ctx)
 
     # ---- K1: direct calls ----------------------------------------------------------------
     rd = lib.replay_data(ctx)
